@@ -81,6 +81,21 @@ def to_jsonable(obj):
     return obj
 
 
+def revive(obj):
+    """Inverse of to_jsonable for the non-finite floats it writes as strings (cases read back from replay files)."""
+    if isinstance(obj, dict):
+        return {k: revive(v) for k, v in obj.items()}
+    if isinstance(obj, list):
+        return [revive(v) for v in obj]
+    if obj == "Infinity":
+        return math.inf
+    if obj == "-Infinity":
+        return -math.inf
+    if obj == "NaN":
+        return math.nan
+    return obj
+
+
 def canonical(case):
     return json.dumps(to_jsonable(case), sort_keys=True, separators=(",", ":"))
 
